@@ -586,6 +586,11 @@ fn seen_keys(changes: &[(ChangeV1, ChangeSource, Instant)]) -> Vec<SeenKey> {
         .collect()
 }
 
+/// Verification hook: (changes received so far) << 32 | (queue length) << 16 | (batches in flight),
+/// published every time `handle_changes` is about to wait for the next event.
+#[cfg(corro_verif)]
+pub static VERIF_INGEST_STATE: std::sync::atomic::AtomicU64 = std::sync::atomic::AtomicU64::new(0);
+
 /// Bundle incoming changes to optimise transaction sizes with SQLite
 ///
 /// *Performance tradeoff*: introduce latency (with a max timeout) to
@@ -624,6 +629,8 @@ pub async fn handle_changes(
     let mut seen: SeenCache = IndexMap::new();
 
     let mut drop_log_count: u64 = 0;
+    #[cfg(corro_verif)]
+    let mut verif_received: u64 = 0;
     // complicated loop to process changes efficiently w/ a max concurrency
     // and a minimum chunk size for bigger and faster SQLite transactions
     loop {
@@ -659,6 +666,12 @@ pub async fn handle_changes(
 
             buf_cost -= tmp_cost;
         }
+
+        #[cfg(corro_verif)]
+        VERIF_INGEST_STATE.store(
+            (verif_received << 32) | ((queue.len() as u64 & 0xffff) << 16) | (join_set.len() as u64 & 0xffff),
+            std::sync::atomic::Ordering::SeqCst,
+        );
 
         let (change, src) = tokio::select! {
             biased;
@@ -716,6 +729,11 @@ pub async fn handle_changes(
                 break;
             }
         };
+
+        #[cfg(corro_verif)]
+        {
+            verif_received += 1;
+        }
 
         let change_len = change.len();
         counter!("corro.agent.changes.recv").increment(std::cmp::max(change_len, 1) as u64); // count empties...
